@@ -16,6 +16,9 @@
 (*  17 l1kind   LZMA1 / LZMA1EXT without / with end marker                     *)
 (*  18 limit    output size limit of MicroLZMA      19 mtpreset  preset vs     *)
 (*              filters in lzma_mt                                             *)
+(*  21 history  what happened on the same lzma_stream before: nothing (fresh), *)
+(*              or a session abandoned without lzma_end inside the first       *)
+(*              header / with a Block open / after a flush, then re-init       *)
 (*  20 update   lzma_filters_update() with different lc/lp/pb after the first  *)
 (*              flush (at the very start when there is no flush)               *)
 (* "dflt" = keep what lzma_lzma_preset(preset) gives.                          *)
@@ -68,6 +71,7 @@ Applicable(e, k) ==
       [] d = "chain" -> e \notin PresetOnly /\ e \notin Lzma1Entries
       [] d \in {"bsize", "threads", "mtpreset"} -> e = "stream_mt"
       [] d = "flush" -> e \in Flushable
+      [] d = "history" -> e \in MultiCall                 \* an abandoned earlier session on the same lzma_stream
       [] d = "update" -> e \in Flushable                 \* lzma_filters_update() with new lc/lp/pb inside the input
       [] d = "oslice" -> e \in MultiCall /\ e # "microlzma"
       [] d = "l1kind" -> e \in {"raw1", "raw1_buffer"}
